@@ -131,11 +131,30 @@ def _culprit(b, what):
     return 'composite'
 
 
+def _def_directly_in_def(prog, inside=False):
+    for n in prog:
+        if n[0] == 'def':
+            if inside or _def_directly_in_def(n[2], True):
+                return True
+        elif n[0] != 'i':
+            for x in n[1:]:
+                if isinstance(x, list) and _def_directly_in_def(x, False):
+                    return True
+    return False
+
+
 def check_rt_bytes(b):
     r = _mini_rt(b)
     if r is None:
         return []
     what, detail = r
+    if what.startswith('recompile-raises'):
+        try:
+            if _def_directly_in_def(R.decode(b)):
+                # D33 (open): only a macro expansion can put a definition directly inside a definition body
+                return [('rt/def-directly-inside-def-cannot-be-recompiled', detail)]
+        except R.DecodeError:
+            pass
     return [('rt/%s@%s' % (what, _culprit(b, what)), detail)]
 
 
@@ -159,6 +178,11 @@ def check_case(case):
         return check_term(case['data'])[0]
     if chk == 'rtb':
         return check_rt_bytes(case['data'])
+    if chk == 'rtsrc':
+        k, b = _try_compile(case['src'])
+        if k != 'ok':
+            return []
+        return check_rt_bytes(b)
     if chk == 'rt':
         tree = case['prog']
         src = render.render(tree, render.Chooser(case.get('sp', [0])))
@@ -315,6 +339,24 @@ def task_rt_gen(ctx):
         if nt and len(b) < 200:
             ctx.sample({'check': 'rt', 'source': src, 'bytes': b})
     hyp.drive(gen.source_tree(max_depth=4, sugar=True, big=True), one, ctx.n(5000, 250000), ctx.seed)
+    # macros whose expansion is a block construct, invoked inside every kind of body (the renderer's own macro is a flat push / copy)
+    if ctx.shard == 0:
+        inners = ['DEF 1 { OP_TRUE }', 'IF { DEF 1 { OP_TRUE } }', 'LOOP { OP_FALSE }', 'TRY { OP_TRUE } EXCEPT { OP_FALSE }',
+                  'IF { OP_DUP } ELSE { }', 'OP_PUSH x0102']
+        outers = ['%s', 'DEF 0 { %s }', 'IF { %s }', 'IF { } ELSE { %s }', 'TRY { %s } EXCEPT { }', 'LOOP { %s }', 'DEF 0 { IF { %s } }']
+        for inner in inners:
+            for outer in outers:
+                src = '!= m [ ] { %s } ' % inner + outer % '!m [ ]'
+                k, b = _try_compile(src)
+                if k != 'ok':
+                    ctx.count('rt-macro:compiler-rejected')
+                    continue
+                fails = check_rt_bytes(b)
+                ctx.case(b, True)
+                ctx.count('rt:' + ('ok' if not fails else 'FAIL'))
+                ctx.count('rt-macro:compiled')
+                for sig, det in fails:
+                    ctx.fail('rtsrc', sig, {'check': 'rtsrc', 'src': src}, det)
     # operand sizes on both sides of 2^7, 2^8, 2^15, 2^16 for pushes and block bodies
     if ctx.shard == 0:
         for ln in (127, 128, 129, 255, 256, 257, 32767, 32768, 32769, 65535):
